@@ -279,6 +279,25 @@ def auth_corpus(w, target):
     add('auth:ccsa-ke-unknown-group', 36, [(F.SA, b'\0\0\0\x0c\x01\x01\x00\x01\0\0\0\x08\x04\0\0\x63'), (F.NONCE, b'n' * 16),
                                             (F.KE, b'\0\x63\0\0' + b'k' * 8)])
     add('auth:ccsa-rekey-notify-short-spi', 36, [(F.NOTIFY, F.n_body(16393, b'', 3, b'\x01')), (F.NONCE, b'n' * 16)])
+    # a genuine CREATE_CHILD_SA request of the peer, as another implementation might send it: the SPI of its ESP / AH proposal
+    # has a size other than 4 octets (RFC 7296 3.3.1 makes the size a field), everything else untouched
+    genuine = [d for d in w.sent_log if d.sender != target and d.data[18] == 36 and not d.data[19] & 0x20
+               and d.data[0:8] == si and d.data[8:16] == sr]
+    for d in genuine[-1:]:
+        try:
+            first, inner = F.unprotect(d.data, keys)
+            pl = F.split_chain(first, inner)
+        except ValueError:
+            continue
+        for size, spi in ((8, b'\x11' * 8), (0, b''), (1, b'\x22'), (16, b'\x33' * 16)):
+            new = []
+            for t, body in pl:
+                if t == F.SA and len(body) >= 8 and body[5] in (2, 3):
+                    old = body[6]
+                    rest = body[8 + old:]
+                    body = body[:2] + struct.pack('>H', 8 + size + len(rest)) + body[4:6] + bytes([size, body[7]]) + spi + rest
+                new.append((t, body))
+            add('auth:ccsa-genuine-with-%d-octet-child-spi' % size, 36, new)
     add('auth:auth-exchange-again', 35, [(F.IDi, b'\x02\0\0\0x'), (F.AUTH, b'\x02\0\0\0' + b'a' * 32)])
     add('auth:unknown-exchange-200', 200, [])
     add('auth:info-response-unexpected', 37, [], flags=fl | 0x20, m=sa.my_msg_id)
